@@ -317,10 +317,12 @@ func (c *Ctx) isFieldLoadOfParam(v ssa.Value, fn *ssa.Function, structName, fiel
 
 // Lemma L1: encryptedPayload in decryptMsg is non-nil after the loop.
 // Side conditions, all checked here:
-//  (a) the only caller reaches the call on an edge where len(Payloads) > 0 and Payloads[0].Type() == TypeSK
-//      and passes that same message object;
-//  (b) every non-nil value flowing into the φ is a successful type assertion;
-//  (c) inside the loop, every path that does not assign returns.
+//
+//	(a) the only caller reaches the call on an edge where len(Payloads) > 0 and Payloads[0].Type() == TypeSK
+//	    and passes that same message object;
+//	(b) every non-nil value flowing into the φ is a successful type assertion;
+//	(c) inside the loop, every path that does not assign returns.
+//
 // With (a) the loop body runs at least once; with (c) every completed iteration assigned; with (b)
 // the assigned value is non-nil.
 func (c *Ctx) lemmaEncryptedPayload(r *Report, prefix string) func(f *FA, v ssa.Value) (bool, string) {
